@@ -92,4 +92,11 @@ def generate(repo):
     for name, rx, i, o, pm in geoms:
         out.append(f"Definition geom_{name} : nat * nat * nat * nat := ({rx}, {i}, {o}, {pm[1:]}).")
     out.append("Definition geoms : list (nat * nat * nat * nat) := [" + "; ".join(f"geom_{g[0]}" for g in geoms) + "].")
+    # the end-state scan: which state is the initial candidate (`size_t min_element = s; int32_t min_cost = prevMetrics[s];`)
+    vh = strip_cpp_comments(read(repo, "include/m17cxx/Viterbi.h"))
+    mm = find1(r"size_t\s+min_element\s*=\s*(\d+)\s*;\s*int32_t\s+min_cost\s*=\s*prevMetrics\s*\[\s*(\d+)\s*\]\s*;", vh,
+               "end-state scan: min_element = s; min_cost = prevMetrics[s]")
+    if mm.group(1) != mm.group(2):
+        raise AnchorError(f"end-state scan starts at element {mm.group(1)} but with the metric of state {mm.group(2)}")
+    out.append(f"Definition vit_scan_start : nat := {int(mm.group(1))}.   (* initial candidate of the end-state scan *)")
     return "\n".join(out) + "\n"
